@@ -288,8 +288,8 @@ def dispatch_rule(ctx, facts, cfg):
                     rets.append(F.call_path(t) or '')
                 for s in b['stmts']:
                     if s['k'] == 'assign' and not s['place']['proj'] and s['place']['local'] == 0:
-                        rs = F.roots(f, fd, s['rv']['x']) if s['rv']['k'] == 'use' else []
-                        rets += [r[1] for r in rs if r[0] == 'call']
+                        rs = F.roots(f, fd, s['rv']['x']) if s['rv']['k'] == 'use' else [('rvalue', s['rv']['k'])]
+                        rets += [r[1] if r[0] == 'call' else '%s %s' % (r[0], str(r[1])[:40]) for r in rs]
             okv = bool(rets) and all(p.endswith(want['returns_call']) for p in rets)
             ctx.instance(rid, 'entry %s returns the value of %s unchanged' % (fld, want['returns_call']), ok=okv, site=f['at'])
             if not okv:
@@ -495,6 +495,26 @@ def description_rule(ctx, facts, cfg):
         ctx.missing(rid, 'c_abi::CErr')
         return
     fields = adt['variants'][0]['fields']
+    # only what error_description hands to C matters; other fields of CErr are private bookkeeping
+    ed = facts.fn('c_abi::error_description')
+    exposed = set()
+    if ed is not None:
+        def scan(o):
+            if isinstance(o, dict):
+                if 'proj' in o and 'local' in o:
+                    for x in F.fields_of(o):
+                        if x[0] == 'c_abi::CErr':
+                            exposed.add(x[1])
+                for v in o.values():
+                    scan(v)
+            elif isinstance(o, list):
+                for v in o:
+                    scan(v)
+        scan(ed['blocks'])
+    if not exposed:
+        ctx.violation(rid, 'c_abi::error_description', 'no-field-read', 'error_description reads no field of CErr', kind='anchor-missing', config=cfg)
+        return
+    fields = [fd for fd in fields if fd['name'] in exposed]
     for fd in fields:
         ok = fd['ty'].get('adt') == 'std::ffi::CString'
         ctx.instance(rid, 'CErr.%s has type %s (NUL-terminated by construction)' % (fd['name'], fd['ty'].get('s')), ok=ok, site=adt.get('at'))
@@ -512,7 +532,7 @@ def description_rule(ctx, facts, cfg):
             for st in b['stmts']:
                 if st['k'] != 'assign':
                     continue
-                fl = [x for x in F.fields_of(st['place']) if x[0] == 'c_abi::CErr']
+                fl = [x for x in F.fields_of(st['place']) if x[0] == 'c_abi::CErr' and x[1] in exposed]
                 if fl and F.last_field(st['place']) == fl[-1]:
                     stores += 1
                     rs = F.roots(f, defs, st['rv']['x']) if st['rv']['k'] == 'use' else []
@@ -531,10 +551,27 @@ def description_rule(ctx, facts, cfg):
                         ctx.violation(rid, key, 'store-not-from-error:' + fl[-1][1], 'throw_err stores into CErr.%s a value that is not CString::new(<the error being reported>.to_string()) (sources: %s): the retrievable '
                                       'description is not that of the failure just reported' % (fl[-1][1], [str(r[1])[:50] for r in rs]), site=st.get('at'), config=cfg)
                 if st['rv']['k'] == 'ref' and st['rv'].get('mut'):
-                    fl = [x for x in F.fields_of(st['rv']['place']) if x[0] == 'c_abi::CErr']
+                    fl = [x for x in F.fields_of(st['rv']['place']) if x[0] == 'c_abi::CErr' and x[1] in exposed]
                     if fl:
                         ctx.violation(rid, key, 'slot-field-borrowed-mutably:' + fl[-1][1], 'throw_err takes `&mut` of CErr.%s instead of replacing it: text written through the borrow is added to what earlier failures left there, '
                                       'and error_description keeps returning the old start' % fl[-1][1], site=st.get('at'), config=cfg)
+    # must-pass-through: in the body that stores the description, no path reaches a return without the store
+    for key, f in bodies:
+        sb = set()
+        for bi, b in F.blocks(f):
+            for st in b['stmts']:
+                if st['k'] == 'assign':
+                    fl = [x for x in F.fields_of(st['place']) if x[0] == 'c_abi::CErr']
+                    if fl and F.last_field(st['place']) == fl[-1] and fl[-1][1] == fields[0]['name']:
+                        sb.add(bi)
+        if not sb:
+            continue
+        reach = F.reachable_blocks(f, 0, avoid=sb)
+        skipping = sorted(bi for bi in reach if f['blocks'][bi]['term']['k'] == 'return')
+        ctx.instance(rid, '%s: every path to its return passes through the store of CErr.%s' % (key.split('::', 1)[-1], fields[0]['name']), ok=not skipping, site=f['at'])
+        if skipping:
+            ctx.violation(rid, key, 'store-can-be-skipped', 'a path through %s reaches its return without replacing CErr.%s: after such a failure error_description still yields the text of an earlier failure'
+                          % (key.split('::', 1)[-1], fields[0]['name']), site=f['at'], config=cfg)
     if stores < 1:
         ctx.violation(rid, 'c_abi::throw_err', 'no-replacement', 'throw_err never assigns a field of CErr: the description of an earlier failure is not replaced by the one being reported', config=cfg)
 
